@@ -386,13 +386,23 @@ pub fn execute(c: &ThreadCase) -> ThreadObs {
             let _ = h.join();
         }
     } else {
-        // provable deadlock: the waiter sits in futex() while nobody is inside a holding section
+        // provable starvation: nobody is inside a holding section, and the waiter either sits in
+        // futex() or burns CPU (spins) without ever getting its guard
+        let ticks = |tid: i64| -> u64 {
+            let st = std::fs::read_to_string(format!("/proc/self/task/{tid}/stat")).unwrap_or_default();
+            let rest = st.rsplit_once(") ").map(|x| x.1.to_string()).unwrap_or_default();
+            let f: Vec<&str> = rest.split_whitespace().collect();
+            f.get(11).and_then(|x| x.parse::<u64>().ok()).unwrap_or(0) + f.get(12).and_then(|x| x.parse::<u64>().ok()).unwrap_or(0)
+        };
         std::thread::sleep(std::time::Duration::from_millis(200));
+        let before: Vec<u64> = tids.iter().map(|t| ticks(*t)).collect();
+        std::thread::sleep(std::time::Duration::from_millis(1000));
         for (t, f) in finished.iter().enumerate() {
             if !*f {
                 let sc = std::fs::read_to_string(format!("/proc/self/task/{}/syscall", tids[t])).unwrap_or_default();
                 let holders = HOLDERS.load(SeqCst);
-                o.stuck.push(format!("thread {t} (tid {}) unfinished after 10 s; syscall state `{}`; measured holders now {holders}; other unfinished: {:?}", tids[t], sc.trim(), finished.iter().enumerate().filter(|(_, f)| !**f).map(|(i, _)| i).collect::<Vec<_>>()));
+                let cpu = ticks(tids[t]).saturating_sub(before[t]);
+                o.stuck.push(format!("thread {t} (tid {}) unfinished after 10 s; syscall state `{}`; cpu +{cpu} ticks in the last second; measured holders now {holders}; other unfinished: {:?}", tids[t], sc.trim(), finished.iter().enumerate().filter(|(_, f)| !**f).map(|(i, _)| i).collect::<Vec<_>>()));
             }
         }
     }
@@ -483,11 +493,15 @@ pub fn judge(rec: &mut Recorder, c: &ThreadCase, ex: Exec, _hello: &Value) -> Re
         return rec.fail(&sig("acquisition-or-release-panicked"), format!("{:?}; case {c:?}", o.op_failures));
     }
     if !o.stuck.is_empty() {
-        let futex = o.stuck.iter().all(|s| s.contains("`202 "));
+        // each stuck thread: blocked in futex(), or spinning (>= half a CPU-second in one second)
+        let spinning = |s: &String| s.split("cpu +").nth(1).and_then(|x| x.split(' ').next()).and_then(|x| x.parse::<u64>().ok()).map(|t| t >= 50).unwrap_or(false);
+        let proved = o.stuck.iter().all(|s| s.contains("`202 ") || spinning(s));
         let nobody = o.stuck.iter().all(|s| s.contains("measured holders now 0"));
-        if futex && nobody {
-            return rec.fail(&sig("waiter-never-gets-its-turn"), format!("{:?}; every holder has left its holding section, the waiters sit in futex(); case {c:?}", o.stuck));
+        if proved && nobody {
+            let how = if o.stuck.iter().any(spinning) { "spin without ever being served" } else { "sit in futex()" };
+            return rec.fail(&sig("waiter-never-gets-its-turn"), format!("{:?}; every holder has left its holding section, the waiters {how}; case {c:?}", o.stuck));
         }
+        rec.count("watchdog", 1);
         rec.inconclusive.push(format!("threads did not finish but a deadlock could not be proved: {:?}", o.stuck));
         return Ok(());
     }
